@@ -1658,8 +1658,9 @@ func (p *partition) truncateUncommitted() error {
 	)
 	for i := 0; i < 3; i++ {
 		lastOffset, err = p.sendLeaderOffsetRequest(leaderEpoch)
-		// Retry timeouts.
-		if err == nats.ErrTimeout {
+		// Retry timeouts. The same goes for when there are no responders,
+		// i.e. the new leader has not started leading the partition yet.
+		if err == nats.ErrTimeout || err == nats.ErrNoResponders {
 			time.Sleep(50 * time.Millisecond)
 			continue
 		}
